@@ -309,6 +309,25 @@ def termination_special(V):
     call_checked(V, name, T, x)
 
 
+REGEX_TYPES = {'SlugStr': types.SlugStr, 'EmailStr': types.EmailStr}
+for _n in dir(types):
+    _t = getattr(types, _n)
+    if isinstance(_t, type) and isinstance(getattr(_t, 'regex', None), str) and _n not in REGEX_TYPES:
+        REGEX_TYPES[_n] = _t
+LONG_RUNS = ['a' * 48 + '!', 'a-' * 24 + '!', 'a.' * 24 + '@', 'a' * 40 + '@' + 'b' * 40, 'a-b_c.' * 8 + '@x', '-' * 48 + 'a!', 'a' * 48 + '/',
+             '1' * 48 + 'x', 'a@' + 'b.' * 24, 'a@b.' + 'c' * 48 + '1', ('a' * 10 + '-') * 5 + '_', 'a' * 48]
+
+
+@ob('termination/regex-types', marks=['accept', 'reject'], budget=(60, 200),
+    bounds='every type of utype.types that is defined by a regular expression (%s); x picked from %d long runs (40..96 characters of the '
+           'pattern alphabet that become invalid only at their end, the inputs on which nested quantifiers backtrack): the call returns or '
+           'raises ParseError (a match that does not come back is a hang, confirmed by the 20 s replay)' % (sorted(REGEX_TYPES), len(LONG_RUNS)))
+def termination_regex_types(V):
+    name = V.pick('T', sorted(REGEX_TYPES))
+    x = V.pick('x', LONG_RUNS)
+    call_checked(V, name, REGEX_TYPES[name], x)
+
+
 LAX_X = [1234.5, 99.99, 9.99, 0.5, 12.3456, 123456.7, 1e-7, 1e22, -99.95, float('inf'), float('nan'), '1234.5', '99.99', '0.000', b'9.96',
          Decimal('1234.5'), Decimal('99.99'), Decimal('9.99E+3'), Decimal('0E-5'), Decimal('-0.995'), Decimal('NaN'), 12345, True, None, 'x']
 
